@@ -58,7 +58,7 @@ CHECKS = {
         engine="e2e", category="exploration",
         technique="property-based end-to-end testing with an exact partition/multiset bookkeeping oracle over job ids, tasks, vehicle shifts and markers",
         text="Same generated problems x configs as C01; the oracle is a pure bookkeeping model: every job complete in exactly one tour or exactly once unassigned with a reason, no foreign or duplicate ids, tours name existing vehicle shifts used once and serve a job, break/reload activities map injectively to definitions of that vehicle shift. Found and fixed an empty-tour defect and a repair panic.",
-        note="Trusted: the bookkeeping part of R. The generator forces infeasible-by-design jobs so the unassigned path is populated. Sub-check e2e_ext_conservation extends the problems with vicinity clustering (with/without filtering policy), required breaks and witness-derived relations and applies the bookkeeping rules only (restricted semantics). One open known finding: solver panic in the solution writer with a required break and departure rescheduling (solve:panic:format_time@required-break).",
+        note="Trusted: the bookkeeping part of R. The generator forces infeasible-by-design jobs so the unassigned path is populated. Sub-check e2e_ext_conservation extends the problems with vicinity clustering (with/without filtering policy), required breaks and witness-derived relations and applies the bookkeeping rules only (restricted semantics). Two open known findings, both from required breaks together with departure rescheduling: solver panic in the solution writer (solve:panic:format_time@required-break) and one required break reported in two stops (conservation:required-break-reported-twice).",
         design_ref="4/C02"),
     "C03": dict(
         engine="e2e", category="exploration",
